@@ -2,7 +2,7 @@ import ErrModel.Proofs.RoundTrip
 /-
   C01 — Error text and cause-tree structure survive network transfer.
 
-  `shape e` is the visible cause tree (single-cause chain and multi-cause
+  `shape vf e` is the visible cause tree (single-cause chain and multi-cause
   branches) with the Error() text at every node.  `stable e` is the decidable
   well-formedness of the trees the property quantifies over (section "Stability"
   of ErrModel/Shape.lean): foreign types are not registered, opaque nodes carry
@@ -13,15 +13,15 @@ import ErrModel.Proofs.RoundTrip
 -/
 namespace ErrModel
 
-/-- One hop between knowing processes preserves shape and text at every node. -/
+/-- One hop between knowing processes preserves shape vf and text at every node. -/
 theorem C01_hop (vf : Err → Str) (tag : Nat) (e : Err) (h : stable e = true) :
-    ∃ e', hop Full Full vf tag e = some e' ∧ shape e' = shape e ∧ stable e' = true :=
+    ∃ e', hop Full Full vf tag e = some e' ∧ shape vf e' = shape vf e ∧ stable e' = true :=
   hop_ok vf e [tag] h
 
 /-- Any number of hops: decoding never fails, the visible tree and the text at
     every node are those of the original error. -/
 theorem C01_hops (vf : Err → Str) (tag : Nat) (e : Err) (h : stable e = true) :
-    ∀ k : Nat, ∃ e', hopsFull vf tag k e = some e' ∧ shape e' = shape e ∧ stable e' = true := by
+    ∀ k : Nat, ∃ e', hopsFull vf tag k e = some e' ∧ shape vf e' = shape vf e ∧ stable e' = true := by
   intro k
   induction k with
   | zero => exact ⟨e, rfl, rfl, h⟩
@@ -41,7 +41,7 @@ theorem C01_unregistered_wrapper_text (m c : Str) (h : m ≠ colonSp ++ c) :
     opaqueText (extractPrefix m c).1 (extractPrefix m c).2 c = m :=
   extract_reassemble m c h
 
-/-- …and the excluded shape really is mis-rendered by the pinned algorithm
+/-- …and the excluded shape vf really is mis-rendered by the pinned algorithm
     (a wrapper printing ": " ++ cause comes back printing just the cause). -/
 theorem C01_excluded_shape_counterexample :
     opaqueText (extractPrefix (colonSp ++ b!"x") (b!"x")).1 (extractPrefix (colonSp ++ b!"x") (b!"x")).2 (b!"x")
@@ -55,6 +55,6 @@ example : stable
         (.second [2,0]
           (.wrap [3,0] (.user ⟨b!"x/y/*y.W", b!"*y.W", 0, []⟩ (b!"ctx"))
             (.multi [4,0] .join [.leaf [5,0] (.errorString (b!"a")), .barrier [6,0] (b!"m") (.leaf [7,0] .deadline)]))
-          (.leaf [8,0] (.pkgFundamental (b!"sec") []))))) = true := by decide
+          (.leaf [8,0] (.pkgFundamental (b!"sec") [⟨9, b!"main.g\n\tg.go:2"⟩]))))) = true := by decide
 
 end ErrModel
